@@ -422,6 +422,26 @@ func c13(r *ev.Run, replay string) {
 	for _, a := range corpus.ExtActions(r.Thorough()) {
 		run(actionSubject(a), depth)
 	}
+	// learn actions whose specs name their fields by a *masked* header (a field header obtained with
+	// hasMask = true is a value callers share between a learn spec, a reg_load2 and a match)
+	masked := func(name string) uint64 {
+		w := corpus.HeaderWordByName(name)
+		return w&^0xff | 0x100 | (w&0xff)*2
+	}
+	for form := 0; form < 5; form++ {
+		for _, nb := range []int{8, 16, 32} {
+			l := corpus.Action("nx_learn", form)
+			sp := corpus.LearnSpec(form, nb, nb)
+			if _, ok := sp.U["SrcField"]; ok {
+				sp.Set("SrcField", masked("NXM_NX_REG6"))
+			}
+			if _, ok := sp.U["DstField"]; ok {
+				sp.Set("DstField", masked("NXM_NX_REG7"))
+			}
+			l.Add("LearnSpecs", sp)
+			run(actionSubject(l), depth)
+		}
+	}
 	for _, f := range corpus.AllMatchFields() {
 		run(oxmSubject(f), depth)
 	}
